@@ -1198,6 +1198,14 @@ func (sc *serverConn) handleHeaderFrame(strm *Stream, fr *FrameHeader) error {
 			// CONTINUATION. If END_HEADERS is set, the block is complete and a
 			// truncated field is a decoding error.
 			if errors.Is(err, ErrUnexpectedSize) && len(pb) > 0 && !fr.Flags().Has(FlagEndHeaders) {
+				// What is kept until the rest of the field arrives counts
+				// against the limit like the fields before it. A field that is
+				// never finished would otherwise be buffered without end, one
+				// CONTINUATION frame after the other.
+				if sc.maxHeaderList > 0 && strm.headerListSize+len(pb) > sc.maxHeaderList {
+					return NewGoAwayError(EnhanceYourCalm, "header list exceeds the maximum size")
+				}
+
 				err = nil
 				strm.previousHeaderBytes = append(strm.previousHeaderBytes, pb...)
 			} else {
